@@ -9,7 +9,8 @@ RULE = ("inputs: (i) random Unicode strings <= 64 chars biased to the lexer's ch
         "braces, °', multi-byte letters, every kind of Unicode whitespace); (ii) token soups <= 40 tokens from the real vocabulary (numbers "
         "with exponents <= 3 digits, unit words, fact words, function names, `to`, punctuation); (iii) mutations (delete/duplicate/swap/"
         "splice) of every query in tests/ and the README; (iv) mostly well-formed structured queries (quantities, functions incl. round(x,n), facts, "
-        "powers, casts), 40% of them mutated; (v) long operator-free phrases (<= 40 words, 100-300 bytes, multi-byte characters at arbitrary byte offsets). Bounds as the property states: a token after ^ or ** (and the digits argument of "
+        "powers, casts), 40% of them mutated; (v) long operator-free phrases (<= 40 words, 100-300 bytes, multi-byte characters at arbitrary byte offsets); (vi) pumped strings "
+        "prefix + pattern^k + middle + closing^k + suffix of <= 300 characters. Bounds as the property states: a token after ^ or ** (and the digits argument of "
         "round) is an integer literal of <= 2 digits and the product of all power magnitudes in one input is <= 100. Each input is run "
         "through parse+query in the debug-assertion and the release build; refuted by: a panic, abort or signal, no result sequence, an "
         "error whose range is not start<=end<=len on char boundaries or that codespan-reporting cannot render, a value that cannot be "
@@ -125,6 +126,22 @@ def gen_phrase(rng, vocab):
     if rng.random() < 0.3:
         s += rng.choice([" * 2", " + 1 m", " to m", " / (1 + 1)", ")", " ^ 2"])
     return s
+
+PUMP = ["(", ")", "((", "(1+", "(2*", "1+", "+1", "round(", "floor(", "x(", "{", "}", "-", "1 ", " m", "m/", "^2", ",", "(,", "f(*)", " to ", "to m ",
+        "1e", ".", "°", "'", "%", "km ", "\u00a0", "**", "//", "1/", "(1/(", "sin(", "a ", "population ", "mass of "]
+
+def gen_pumped(rng, vocab):
+    """prefix + pattern^k + middle + closing^k + suffix (<= 300 characters): nesting, repetition and run-length limits of the lexer,
+    parser and evaluator (recursion guards, fixed stacks, counters) only show after dozens or hundreds of repetitions of one short
+    pattern - which a string of independent random symbols never contains (seeds C11-e, C12-c, C06-d/e)."""
+    pat = "".join(rng.choice(PUMP) for _ in range(rng.choice([1, 1, 1, 2, 2, 3])))
+    clo = rng.choice(["", "", ")", "))", "}", ") ", ",1)", "+1)"])
+    unit = max(1, len(pat) + len(clo))
+    k = rng.randint(1, max(1, 290 // unit))
+    mid = rng.choice(["", "1", "1", "1.5 km", "x", " ", rng.choice(vocab["facts"]), gen_number(rng)])
+    pre = rng.choice(["", "", "1 + ", "2 * ", " ", "round(1, ", "3 m to "])
+    suf = rng.choice(["", "", " + 1", " to m", ")", " m", " * 2"])
+    return (pre + pat * k + mid + clo * k + suf)[:300]
 
 def mutate(rng, s):
     toks = re.findall(r"\s+|[A-Za-z°']+|[0-9.]+(?:[eE][+-]?[0-9]+)?|.", s, re.S)
@@ -253,7 +270,9 @@ def shard(p):
     inputs = []
     for _ in range(p["n"]):
         r = rng.random()
-        if r < 0.06:
+        if r < 0.05:
+            inputs.append(("pumped", gen_pumped(rng, vocab)))
+        elif r < 0.10:
             inputs.append(("phrase", gen_phrase(rng, vocab)))
         elif r < 0.25:
             inputs.append(("unicode", gen_unicode(rng)))
